@@ -191,12 +191,8 @@ def run(ctx, rep, tier="quick"):
     # a failed trial's NaN takes no part in any comparison that ranks a rung (shared with C05-S4): the rules about the NaN filter of
     # get_top_list are taken over, relabelled
     from . import c05 as _c05
-    sub = type(rep)(rep.prop)
-    _c05.s4_s5(ctx, sub)
-    for i in sub.items:
-        if i.clause == "S4":
-            i.clause = "S3"
-            rep.items.append(i)
+    from .common import take_over
+    take_over(ctx, rep, _c05.s4_s5, "S3", only="S4")
     # the limit: the run carries on while the number of failures does not EXCEED max_failures, and ends with the error when it does
     g_ = ctx.P.method("Tuner", "_stop_condition")
     rv_ = [r.value for r in returns_of(g_)]
